@@ -1,0 +1,13 @@
+//go:build verif
+
+package stat
+
+import "github.com/alibaba/sentinel-golang/core/base"
+
+// Exports for the verification harness (compiled only with the "verif" build tag).
+
+// VerifResetInboundNode replaces the global inbound node by a fresh one, laid out at the current
+// (possibly virtual) clock reading with the statistic geometry currently configured.
+func VerifResetInboundNode() {
+	inboundNode = NewResourceNode(base.TotalInBoundResourceName, base.ResTypeCommon)
+}
